@@ -40,6 +40,9 @@ INPUTS = {
     "union_result": dict(schema=corpus.SCHEMA_K, queries="query UnionOne { u { ... on User { id name } ... on Admin { level } } }\nquery UnionList { ul { ... on User { id } ... on Admin { perms } } }\n"),
     "fragments": dict(schema=corpus.SCHEMA_K, queries="query Frag { user { ...FUser friend { ...FUser } } }\nquery FragUnpacked { node { ...FUser ... on Admin { level } } }\nquery FragOnly { userReq { ...FUser } }\n"
                                                        "fragment FUser on User { id name }\n"),
+    "root_fragments": dict(schema=corpus.SCHEMA_K, queries="query TwoFrags { ...UserPart ...NodePart }\nquery ThreeFrags { ...UserPart ...NodePart ...UlPart }\nquery OneFrag { ...UserPart }\n"
+                                                            "query FragPlusOwn { ...UserPart nodes { id } }\nquery OwnOnly { user { id } }\n"
+                                                            "fragment UserPart on Query { user { id name } }\nfragment NodePart on Query { node { id } }\nfragment UlPart on Query { ul { __typename } }\n"),
     "custom_scalar": dict(schema=corpus.SCHEMA_K, queries="query Blobby { user { id blob } }\n",
                           options={"scalars": {"Blob": {"type": "Any", "parse": ".blob_scalars.parse_blob", "serialize": ".blob_scalars.serialize_blob"}}, "files_to_include": ["@blob_scalars.py"]},
                           files={"blob_scalars.py": SCALARS_PY}),
@@ -171,7 +174,9 @@ def evaluate(case):
             ops[name] = runs
         out["ops"] = ops
         out["hints"] = hints
-        out["top_fields"] = {x.name.value: [(s.alias.value if s.alias else s.name.value) for s in x.selection_set.selections] for x in doc.definitions if x.kind == "operation_definition"}
+        from graphql.execution.collect_fields import collect_fields
+        frs = {x.name.value: x for x in doc.definitions if x.kind == "fragment_definition"}
+        out["top_fields"] = {x.name.value: list(collect_fields(schema, frs, {}, schema.get_root_type(x.operation), x.selection_set)) for x in doc.definitions if x.kind == "operation_definition"}
     return out
 
 
